@@ -35,6 +35,7 @@
 #include <stdlib.h>
 #include <string.h>
 #include <sys/ioctl.h>
+#include <sys/resource.h>
 #include <sys/stat.h>
 #include <sys/syscall.h>
 #include <sys/types.h>
@@ -149,11 +150,32 @@ static void event_end(long k, char cls, const char *call, const char *p1, const 
     pthread_mutex_unlock(&mu);
 }
 
+/* number of descriptors currently open on paths under the roots, and its maximum (reported as #MAXOPEN at exit) */
+static long open_now = 0, open_max = 0;
+static int fake_nofile = 0;       /* FCSHIM_FAKE_NOFILE: what getrlimit(RLIMIT_NOFILE) reports to the subject */
+static long read_delay_us = 0;    /* FCSHIM_READ_DELAY_US: every read of a tracked file takes at least this long */
+
+static void count_open(int delta) {
+    long n = __atomic_add_fetch(&open_now, delta, __ATOMIC_SEQ_CST);
+    long m = __atomic_load_n(&open_max, __ATOMIC_SEQ_CST);
+    while (n > m && !__atomic_compare_exchange_n(&open_max, &m, n, 0, __ATOMIC_SEQ_CST, __ATOMIC_SEQ_CST)) {}
+}
+
 static void track_open(int fd, const char *path, int writable) {
     if (fd < 0 || fd >= MAXFD) return;
+    int had = fd_path[fd] != NULL;
     free(fd_path[fd]);
     fd_path[fd] = path ? strdup(path) : NULL;
     fd_write[fd] = writable;
+    if (!had && path) count_open(1);
+    else if (had && !path) count_open(-1);
+}
+
+__attribute__((destructor)) static void fini(void) {
+    if (!active || log_fd < 0) return;
+    char b[64];
+    int l = snprintf(b, sizeof b, "#MAXOPEN\t%ld\n", __atomic_load_n(&open_max, __ATOMIC_SEQ_CST));
+    raw_write(log_fd, b, l);
 }
 
 static const char *path_of_fd(int fd) { return (fd >= 0 && fd < MAXFD) ? fd_path[fd] : NULL; }
@@ -188,6 +210,8 @@ __attribute__((constructor)) static void init(void) {
     if (getenv("FCSHIM_ERRNO")) errno1 = atoi(getenv("FCSHIM_ERRNO"));
     if (getenv("FCSHIM_ERRNO2")) errno2 = atoi(getenv("FCSHIM_ERRNO2"));
     emulate_clone = getenv("FCSHIM_EMULATE_CLONE") != NULL;
+    if (getenv("FCSHIM_FAKE_NOFILE")) fake_nofile = atoi(getenv("FCSHIM_FAKE_NOFILE"));
+    if (getenv("FCSHIM_READ_DELAY_US")) read_delay_us = atol(getenv("FCSHIM_READ_DELAY_US"));
     const char *lg = getenv("FCSHIM_LOG");
     if (lg) log_fd = (int)syscall(SYS_openat, AT_FDCWD, lg, O_WRONLY | O_CREAT | O_APPEND | O_CLOEXEC, 0644);
     active = 1;
@@ -437,6 +461,7 @@ int close(int fd) {
         free(fd_path[fd]);
         fd_path[fd] = NULL;
         fd_write[fd] = 0;
+        count_open(-1);
     }
     return real_close(fd);
 }
@@ -451,6 +476,10 @@ ssize_t read(int fd, void *buf, size_t n) {
     int fe;
     long k = event_begin('r', &fe);
     if (fe) { event_end(k, 'r', "read", p1, NULL, "", -1, fe); errno = fe; return -1; }
+    if (read_delay_us > 0) {
+        struct timespec ts = { read_delay_us / 1000000, (read_delay_us % 1000000) * 1000 };
+        nanosleep(&ts, NULL);
+    }
     ssize_t r = real_read(fd, buf, n);
     int e = errno;
     event_end(k, 'r', "read", p1, NULL, "", r, r < 0 ? e : 0);
@@ -687,6 +716,36 @@ int ioctl(int fd, unsigned long req, ...) {
     event_end(k, cls, name, p1, p2, (req == FICLONE && emulate_clone) ? "emulated" : "", r, r < 0 ? e : 0);
     errno = e;
     return r;
+}
+
+/* ------------------------------------------------------------------ descriptor limit as seen by the subject
+ * The subject sizes its open-file budget from RLIMIT_NOFILE. Reporting a small limit while the real one stays large
+ * makes an over-admission visible as a count (#MAXOPEN) instead of as EMFILE errors. */
+
+int getrlimit(__rlimit_resource_t res, struct rlimit *rl) {
+    REAL(int, getrlimit, __rlimit_resource_t, struct rlimit *);
+    int r = real_getrlimit(res, rl);
+    if (active && fake_nofile > 0 && res == RLIMIT_NOFILE && r == 0) rl->rlim_cur = rl->rlim_max = (rlim_t)fake_nofile;
+    return r;
+}
+
+int getrlimit64(__rlimit_resource_t res, struct rlimit64 *rl) {
+    REAL(int, getrlimit64, __rlimit_resource_t, struct rlimit64 *);
+    int r = real_getrlimit64(res, rl);
+    if (active && fake_nofile > 0 && res == RLIMIT_NOFILE && r == 0) rl->rlim_cur = rl->rlim_max = (rlim64_t)fake_nofile;
+    return r;
+}
+
+int setrlimit(__rlimit_resource_t res, const struct rlimit *rl) {
+    REAL(int, setrlimit, __rlimit_resource_t, const struct rlimit *);
+    if (active && fake_nofile > 0 && res == RLIMIT_NOFILE) return 0;
+    return real_setrlimit(res, rl);
+}
+
+int setrlimit64(__rlimit_resource_t res, const struct rlimit64 *rl) {
+    REAL(int, setrlimit64, __rlimit_resource_t, const struct rlimit64 *);
+    if (active && fake_nofile > 0 && res == RLIMIT_NOFILE) return 0;
+    return real_setrlimit64(res, rl);
 }
 
 /* ------------------------------------------------------------------ process control (class p)
